@@ -14,9 +14,21 @@ CLAIMED = {
         design_ref="5/C19",
         note="trusted: Kani/CBMC/CaDiCaL, extraction E1; string quantifier bounded by byte length (stated per obligation); core::str::from_utf8 / chars() / core::fmt are executed from the real core sources",
         technique="function contracts (pre/post) on the real coordinate/text functions, Kani/CBMC full-domain; bounded harnesses for FromStr"),
+    "C17": dict(
+        category="proof",
+        text="len, is_empty and has of a move batch are verified against the closed-form enumeration (one plain move per destination, the four promotions N,B,R,Q for pawn destinations on rank 1/8) by loop-free Kani harnesses over all 6 pieces x 64 origins x 2^64 destination sets x all 64*64*7 queried moves; iteration is verified as a step contract on the real PieceMovesIter::next under the iterator's state invariant (returns the head of the pending enumeration, leaves exactly the tail, exact remaining length, unreachable!() unreachable); 'every destination exactly once' follows by induction on the remaining length.",
+        design_ref="5/C17",
+        note="trusted: Kani/CBMC/CaDiCaL, extraction E1, the oracle's batch_has/batch_len (10 lines), induction lemma L-batch",
+        technique="function contracts on PieceMoves::{len,is_empty,has} and a step contract + state invariant on PieceMovesIter::next, Kani/CBMC full-domain"),
+    "C05": dict(
+        category="proof",
+        text="Leaper/pawn/ray/between/line tables: table value == geometric definition for every argument (one loop-free Kani query each over the symbolic square(s)/colour/occupancy). Const variants (slow walker): 64 per-square Kani harnesses over all 2^64 occupancies with the walker loops completely unwound. Fast slider lookups, per back end: lemma (a) index ignores irrelevant bits (Kani on the real index functions, PEXT intrinsic replaced by its specification), lemma (b) the geometric definition ignores irrelevant bits (Kani), and (c) an exhaustive finite case analysis over all 107,648 (square, relevant-subset) pairs executed on the real tables of the current tree in both configurations (magic; pext with the real BMI2 instruction). Together: lookup == definition for all 64 x 2^64 arguments.",
+        design_ref="5/C05",
+        note="trusted: Kani/CBMC/CaDiCaL; PEXT hardware semantics (Intel SDM gather model) and extraction edit E4; the composition lemma L-slider (three machine-checked parts, one line of equational reasoning); part (c) is exhaustive evaluation, not a SAT proof",
+        technique="function contracts (result == spec function of the arguments) on the real lookup functions, Kani/CBMC full-domain; slider tables by two machine-checked lemmas + exhaustive finite case analysis"),
 }
 
 _todo = "not yet covered by this revision of the machinery (work in progress; see DESIGN.md section 5 for the planned obligations)"
 NOT_APPLICABLE = {p: _todo for p in
-                  ["C01", "C02", "C03", "C04", "C05", "C06", "C07", "C08", "C09", "C10", "C11", "C12", "C13", "C14", "C15",
-                   "C16", "C17", "C20"]}
+                  ["C01", "C02", "C03", "C04", "C06", "C07", "C08", "C09", "C10", "C11", "C12", "C13", "C14", "C15",
+                   "C16", "C20"]}
